@@ -6,7 +6,8 @@
 (* power-of-two width (checked on the implementation's answer); a prefix that cuts the consumed part   *)
 (* must be refused.                                                                                   *)
 (***************************************************************************************************)
-EXTENDS MapFile
+EXTENDS MapFile, Mutate
+CONSTANTS Seed, NRand
 VARIABLES done
 P(name, bytes) == [n |-> name, s |-> Lit(bytes), f |-> FALSE]
 F(name, v) == [n |-> name, s |-> Lit(LE32(v)), f |-> TRUE]
@@ -90,5 +91,9 @@ Next == /\ ~done /\ done' = TRUE
                  ti == CHOOSE i \in 1..Len(base) : base[i].n = "tiles"
                  wrapped == [base EXCEPT ![li].s = Lit(LE32(lg)), ![hi].s = Lit(LE32(Pow2(32 - lg) + r)), ![ti].s = Zr(4 * r * Pow2(lg))]
              IN Emit(<<"dimension-wrap", kind, lg, r>>, kind, "lgWidth+height+tiles", Segs(wrapped), "any")
+        /\ \A r \in 1..NRand :
+             LET m == IF r % 2 = 0 THEN Base(1, 2, FALSE) ELSE [Base(0, 1, TRUE) EXCEPT !.groups = <<>>]
+                 img == FlattenSegs(Segs(MapParts(m, <<0,0,0,0>>, <<1,0,0,0>>))) IN
+             Emit(<<"random", Seed, r>>, "map", "random-bytes", << Lit(Mutated(img, Seed * 641 + r)) >>, "any")
 Spec == Init /\ [][Next]_done
 ====
